@@ -22,6 +22,7 @@ type HarnessSpec struct {
 	TimeoutThorough int
 	Assumptions     []string
 	Note            string
+	RPCCoverage     bool // C10: every Msg RPC in the current source must be covered by a "rpc:<component>.<Method>" label
 }
 
 func (h HarnessSpec) bounds(tier string) map[string]int {
